@@ -39,7 +39,7 @@ inline std::string Filter(Rng & r, int depth = 0)
 
 struct GenState
 {
-   int clients = 3, hosts = 2; int opid = 1; uint32_t val = 1; int routeSeq = 0;
+   int clients = 3, hosts = 2; int opid = 1; uint32_t val = 1; int routeSeq = 0; bool quietOk = false;
    std::vector<bool> up, self; std::vector<std::set<std::string> > intent; std::vector<std::map<std::string, std::string> > intentNorm;   // intentNorm: normalised path -> the one spelling this connection ever uses for it
    GenState(int c, int h) : clients(c), hosts(h), up(c, false), self(c, false), intent(c), intentNorm(c) {}
 };
@@ -64,15 +64,15 @@ inline void GenPump(Plan & p, GenState & g, Rng & r)
 }
 inline std::string SetDataCmd(GenState & g, Rng & r, const char * extraFlags = "")
 {
-   std::string fl = extraFlags; if (r.oneIn(5)) fl += "s"; if (r.oneIn(12)) fl += "o"; if (r.oneIn(15)) fl += "n"; if (fl.empty()) fl = "-";
+   std::string fl = extraFlags; if ((g.quietOk)&&(r.oneIn(10))) fl += "q"; if (r.oneIn(5)) fl += "s"; if (r.oneIn(12)) fl += "o"; if (r.oneIn(15)) fl += "n"; if (fl.empty()) fl = "-";
    std::string s = "setdata " + fl;
    const int n = r.oneIn(4) ? (2 + (int) r.below(3)) : 1;
    for (int i=0; i<n; i++) s += " " + RelPath(r) + "=" + U(g.val++) + ":" + (r.oneIn(5) ? std::string("-") : I(r.below(4))) + (r.oneIn(10) ? ":" + U(20 + r.below(200)) : std::string());
    return s;
 }
-inline std::string RmDataCmd(Rng & r)
+inline std::string RmDataCmd(Rng & r, bool quietOk = false)
 {
-   std::string s = "rmdata 0";
+   std::string s = ((quietOk)&&(r.oneIn(8))) ? "rmdata 1" : "rmdata 0";
    const int n = r.oneIn(5) ? 2 : 1;
    for (int i=0; i<n; i++) {std::string pat = r.pct(50) ? RelPath(r) : (Clause(r) + (r.oneIn(2) ? ("/" + Clause(r)) : std::string())); if (r.oneIn(5)) pat += "^" + Filter(r); s += " " + pat;}
    return s;
@@ -93,7 +93,7 @@ inline Plan Gen(uint64_t seed)
    const bool useFilters = !cfg.oneIn(3), useBatch = cfg.oneIn(2), useDepartures = !cfg.oneIn(4);
    const bool knownDefects = cfg.oneIn(12);   // one run in twelve may subscribe with an alias spelling or an empty clause (recorded findings F14, F9); kept rare so they mask little
    p.push_back("cfg prop=C04 clients=" + I(clients) + " hosts=" + I(hosts) + " faultfree=" + I(faultFree) + " knowndefects=" + I(knownDefects));
-   GenState g(clients, hosts);
+   GenState g(clients, hosts); g.quietOk = cfg.oneIn(4);   // one run in four also uses the quiet flags (quiet set, quiet removal, quiet subscribe) with their documented relaxations
    for (int c=0; c<clients; c++) if ((c < 2)||(cfg.pct(70))) GenConnect(p, g, cfg, fl, c, faultFree);
    p.push_back("step 2");
    const int nops = 8 + (int) wl.below(wl.oneIn(4) ? 70 : 30);
@@ -106,7 +106,7 @@ inline Plan Gen(uint64_t seed)
       const std::string sendPfx = (inBatch ? "bsend " : "send ") + I(c) + " ";
       const uint32_t k = wl.below(100);
       if (k < 30) p.push_back(sendPfx + SetDataCmd(g, wl));
-      else if (k < 40) p.push_back(sendPfx + RmDataCmd(wl));
+      else if (k < 40) p.push_back(sendPfx + RmDataCmd(wl, g.quietOk));
       else if (k < 58)
       {
          // subscribe (or re-subscribe an existing pattern with a different filter)
@@ -129,7 +129,7 @@ inline Plan Gen(uint64_t seed)
             g.intent[c].insert(pat); g.intentNorm[c][norm] = pat;
          }
          const std::string f = ((useFilters)&&(wl.pct(45))) ? Filter(wl) : "-";
-         p.push_back(sendPfx + "sub " + I(g.opid++) + " 0 " + Esc(pat) + " " + f);
+         p.push_back(sendPfx + "sub " + I(g.opid++) + " " + (((g.quietOk)&&(wl.oneIn(8))) ? "1" : "0") + " " + Esc(pat) + " " + f);
       }
       else if (k < 66)
       {
